@@ -20,11 +20,13 @@ pub struct Unit {
     pub arg0_variants: bool,
 }
 
-const CORPUS_FILE: &str = "/verif/target/work/c11-corpus.json";
+fn corpus_file() -> String {
+    format!("{}/target/work/c11-corpus.json", root())
+}
 
 /// the corpus, cached on disk by the supervisor so that every spawned child only parses JSON
 pub fn corpus() -> Vec<Opts> {
-    if let Ok(s) = std::fs::read_to_string(CORPUS_FILE) {
+    if let Ok(s) = std::fs::read_to_string(corpus_file()) {
         if let Ok(v) = serde_json::from_str::<Vec<Opts>>(&s) {
             return v;
         }
@@ -125,6 +127,7 @@ fn spawn(id: usize, arg0: &[u8], argv: &[Tok]) -> Option<Observed> {
     let mut c = std::process::Command::new(exe);
     c.env_clear();
     c.env("BPAFMC_CHILD", id.to_string());
+    c.env("BPAFMC_ROOT", root());
     c.arg0(std::ffi::OsString::from(<std::ffi::OsString as std::os::unix::ffi::OsStringExt>::from_vec(arg0.to_vec())));
     for a in argv {
         c.arg(a.os());
@@ -283,9 +286,9 @@ impl Check for C11 {
     }
     fn prepare(&self, _tier: Tier) -> Result<(), String> {
         let c = compute_corpus();
-        std::fs::create_dir_all("/verif/target/work").map_err(|e| e.to_string())?;
-        let tmp = format!("{}.{}", CORPUS_FILE, std::process::id());
+        std::fs::create_dir_all(format!("{}/target/work", root())).map_err(|e| e.to_string())?;
+        let tmp = format!("{}.{}", corpus_file(), std::process::id());
         std::fs::write(&tmp, serde_json::to_string(&c).map_err(|e| e.to_string())?).map_err(|e| e.to_string())?;
-        std::fs::rename(&tmp, CORPUS_FILE).map_err(|e| e.to_string())
+        std::fs::rename(&tmp, corpus_file()).map_err(|e| e.to_string())
     }
 }
